@@ -145,7 +145,7 @@ pub(super) fn stack_fwd(
 
         "unroll" => {
             let mut args = params.series_as_i64("unroll").unwrap();
-            args[1] = args[0] - args[1];
+            args[1] = args[0].saturating_sub(args[1]);
             stack_roll(stack, operands, &args)
         }
 
@@ -201,7 +201,7 @@ pub(super) fn stack_inv(
 
         "roll" => {
             let mut args = params.series_as_i64("roll").unwrap();
-            args[1] = args[0] - args[1];
+            args[1] = args[0].saturating_sub(args[1]);
             stack_roll(stack, operands, &args)
         }
 
